@@ -148,7 +148,75 @@ func (t *ctrans) EncodePeer(id raft.ServerID, a raft.ServerAddress) []byte { ret
 func (t *ctrans) DecodePeer(b []byte) raft.ServerAddress                   { return raft.ServerAddress(b) }
 func (t *ctrans) SetHeartbeatHandler(cb func(rpc raft.RPC))                {}
 func (t *ctrans) AppendEntriesPipeline(id raft.ServerID, target raft.ServerAddress) (raft.AppendPipeline, error) {
-	return nil, raft.ErrPipelineReplicationNotSupported
+	if !t.c.o.pipeline {
+		return nil, raft.ErrPipelineReplicationNotSupported
+	}
+	p := &cpipe{t: t, target: target, in: make(chan *cfut, 128), done: make(chan raft.AppendFuture, 128), shut: make(chan struct{})}
+	go p.run()
+	atomic.AddInt64(&t.c.pipesOpened, 1)
+	return p, nil
+}
+
+// cpipe: an AppendPipeline over the cluster network (same links, gates, filters and history as the
+// plain calls): requests are executed one after the other, answers are handed to the consumer in send order
+type cpipe struct {
+	t      *ctrans
+	target raft.ServerAddress
+	in     chan *cfut
+	done   chan raft.AppendFuture
+	shut   chan struct{}
+	once   sync.Once
+}
+
+type cfut struct {
+	start time.Time
+	args  *raft.AppendEntriesRequest
+	resp  *raft.AppendEntriesResponse
+	err   error
+	ready chan struct{}
+}
+
+func (f *cfut) Error() error                          { <-f.ready; return f.err }
+func (f *cfut) Start() time.Time                      { return f.start }
+func (f *cfut) Request() *raft.AppendEntriesRequest   { return f.args }
+func (f *cfut) Response() *raft.AppendEntriesResponse { return f.resp }
+
+func (p *cpipe) run() {
+	for {
+		select {
+		case f := <-p.in:
+			r, err := p.t.call(p.target, f.args, nil)
+			if err != nil {
+				f.err = err
+			} else {
+				*f.resp = *(r.(*raft.AppendEntriesResponse))
+			}
+			close(f.ready)
+			atomic.AddInt64(&p.t.c.pipeCalls, 1)
+			select {
+			case p.done <- f:
+			case <-p.shut:
+				return
+			}
+		case <-p.shut:
+			return
+		}
+	}
+}
+
+func (p *cpipe) AppendEntries(args *raft.AppendEntriesRequest, resp *raft.AppendEntriesResponse) (raft.AppendFuture, error) {
+	f := &cfut{start: time.Now(), args: args, resp: resp, ready: make(chan struct{})}
+	select {
+	case p.in <- f:
+		return f, nil
+	case <-p.shut:
+		return nil, raft.ErrPipelineShutdown
+	}
+}
+func (p *cpipe) Consumer() <-chan raft.AppendFuture { return p.done }
+func (p *cpipe) Close() error {
+	p.once.Do(func() { close(p.shut) })
+	return nil
 }
 
 func rpcKindOf(cmd interface{}) (kind uint64, term uint64) {
@@ -369,21 +437,23 @@ type clusterOpts struct {
 	snapThreshold     uint64
 	commitTimeout     time.Duration
 	fsmDelay          time.Duration
-	spares            int // extra servers with empty stores, not part of the initial configuration
+	spares            int  // extra servers with empty stores, not part of the initial configuration
+	pipeline          bool // the transport offers AppendEntriesPipeline (replication switches to pipeline mode after the first success)
 }
 
 type cluster struct {
-	o         clusterOpts
-	h         *history
-	net       *cnet
-	nodes     map[uint64]*cnode
-	ids       []uint64
-	cfg       raft.Configuration
-	cfgBytes  map[string]uint64
-	cfgMu     sync.Mutex
-	nextCfgID uint64
-	calls     uint64
-	spareIDs  []uint64
+	pipesOpened, pipeCalls int64
+	o                      clusterOpts
+	h                      *history
+	net                    *cnet
+	nodes                  map[uint64]*cnode
+	ids                    []uint64
+	cfg                    raft.Configuration
+	cfgBytes               map[string]uint64
+	cfgMu                  sync.Mutex
+	nextCfgID              uint64
+	calls                  uint64
+	spareIDs               []uint64
 }
 
 func (c *cluster) node(id uint64) *cnode { return c.nodes[id] }
